@@ -44,7 +44,7 @@ SPEC = {
         "C14_waitgroup_sequential", "C14_waitgroup_counter", "C14_waitgroup_only_if", "C14_waitgroup",
         "C14_deadlock_free", "C14_scripts_ranked",
         "C14_derived_set_old_replace_witness", "C14_counter_old_unsubscribe_witness", "C14_waitgroup_old_race_witness",
-        "C14_sorted_set_inversion_witness",
+        "C14_sorted_set_inversion_witness", "C14_sorted_set_add_window_witness", "C14_sorted_set_callback_locked",
         "C14_skeleton_variable_Compute", "C14_skeleton_NewDerivedVariable2", "C14_skeleton_readableVariable_OnUpdate", "C14_skeleton_sortedSet_deleteSorted",
         "C14_skeleton_sortedSet_addSorted", "C14_skeleton_waitGroup_Add", "C14_skeleton_waitGroup_Done",
         "C14_skeleton_evictionState_evict", "C14_skeleton_derivedSet_inheritMutations", "C14_skeleton_callback_LockExecution",
